@@ -257,7 +257,11 @@ partial def visitFieldDef (fd : FieldDef) : V MField :=
       | some m => match m.attr.bind (s.attrs[·]?) with
         | some a => pure (attrGetType a)
         | none => throw (.nilDeref "VisitLengthFieldDeclaration: MetaData attr")
-      | none => pure typ0
+      | none => do
+        -- no type written and no MetaData entry to take it from
+        if d.ty.isNone then
+          addDiag fd.start.line ("Unknown MetaData type " ++ name ++ " for field " ++ name ++ " declared without a type")
+        pure typ0
     let a ← newAttr (.length typ (some d.attr.from_.text))
     pure { name, attr := some a, doc := docOf d.doc, line := fd.start.line }
   | .cks d => do
@@ -268,7 +272,11 @@ partial def visitFieldDef (fd : FieldDef) : V MField :=
       | some m => match m.attr.bind (s.attrs[·]?) with
         | some a => pure (attrGetType a)
         | none => throw (.nilDeref "VisitCheckSumFieldDeclaration: MetaData attr")
-      | none => pure typ0
+      | none => do
+        -- no type written and no MetaData entry to take it from
+        if d.ty.isNone then
+          addDiag fd.start.line ("Unknown MetaData type " ++ name ++ " for field " ++ name ++ " declared without a type")
+        pure typ0
     let a ← newAttr (.checksum typ d.attr.from_.text)
     pure { name, attr := some a, doc := docOf d.doc, line := fd.start.line }
   | .metaF rep d => do
